@@ -193,13 +193,89 @@ def _solve_equalities(ctx, inputs, kinds, rng):
 def concretise(ctx, declared, rng, tries=400):
     """pick numbers for the declared input atoms that satisfy the path's conditions"""
     kinds = dict(declared)
-    for _ in range(tries):
-        inputs = {nm: _rand_value(k, rng) for nm, k in declared}
+    for k in range(tries):
+        inputs = {nm: _rand_value(kd, rng) for nm, kd in declared}
+        if k >= 40 or ctx.facts:
+            # narrow regions (|w - ws| <= resolution, boundaries) are not hit by sampling: ask z3 for the real atoms
+            model = _z3_real_model(ctx, declared, rng, boxed=(k < tries // 2))
+            if model: inputs.update(model)
         inputs = _solve_equalities(ctx, inputs, kinds, rng)
         val = eval_atoms(ctx, inputs)
         if check_path(ctx, val):
             return inputs
+        if k > 60: break
     return None
+
+
+def _z3_real_model(ctx, declared, rng, boxed=True):
+    import z3
+    at = ctx.atoms
+    kinds = dict(declared)
+    real_inputs = {nm for nm, kd in declared if kd in ('r', 'rany', 'pos', 'ang')}
+    idx = {at.by_name[nm]: nm for nm in real_inputs if nm in at.by_name}
+    involved = set()
+    cons = []
+    zv = {}
+
+    def var(a):
+        if a not in zv: zv[a] = z3.Real('a%d' % a)
+        return zv[a]
+
+    def tr(p):
+        tot = 0
+        for m, c in p.t.items():
+            if c.im != 0: return None
+            t = z3.RealVal(c.re)
+            for a, e in m:
+                if a not in idx: return None
+                x = var(a)
+                for _ in range(abs(e)):
+                    t = t * x if e > 0 else t / x
+            tot = tot + t
+        return tot
+
+    for p, strict in ctx.facts:
+        e = tr(p)
+        if e is None: continue
+        involved |= p.atoms_used()
+        cons.append(e > 0 if strict else e >= 0)
+    for p in ctx.E:
+        if p.atoms_used() <= set(idx) and p.atoms_used():
+            e = tr(p)
+            if e is not None: involved |= p.atoms_used(); cons.append(e == 0)
+    for p in ctx.NE:
+        if p.atoms_used() <= set(idx) and p.atoms_used():
+            e = tr(p)
+            if e is not None: involved |= p.atoms_used(); cons.append(e != 0)
+    if not involved: return {}
+    sol = z3.Solver(); sol.set('timeout', 3000)
+    for a in involved:
+        x = var(a)
+        if kinds[idx[a]] == 'pos': sol.add(x > 0)
+        if kinds[idx[a]] == 'r': sol.add(x != 0)
+    sol.add(*cons)
+    if boxed:
+        # spread the model: each involved atom inside a random decade when that is feasible
+        sol.push()
+        for a in involved:
+            lo = 10 ** rng.uniform(-1, 1)
+            sol.add(var(a) >= z3.RealVal(str(round(lo, 3))) if kinds[idx[a]] == 'pos' else var(a) * var(a) >= z3.RealVal(str(round(lo * lo / 100, 4))))
+            sol.add(var(a) <= z3.RealVal(str(round(lo * 10, 3))), var(a) >= z3.RealVal(str(round(-lo * 10, 3))))
+        if sol.check() != z3.sat:
+            sol.pop()
+            if sol.check() != z3.sat: return None
+    elif sol.check() != z3.sat:
+        return None
+    m = sol.model()
+    out = {}
+    for a in involved:
+        v = m.eval(var(a), model_completion=True)
+        try:
+            out[idx[a]] = float(v.as_fraction())
+        except Exception:
+            try: out[idx[a]] = float(v.approx(20).as_fraction())
+            except Exception: return None
+    return out
 
 
 def label_assignment(ctx, labels):
@@ -226,20 +302,27 @@ def label_assignment(ctx, labels):
 
 # ---------------------------------------------------------------- running
 def concrete_residuals(obs, tol=1e-6):
-    bad = []
+    """an obligation is violated concretely when its residual exceeds 1e-6 of its own term magnitudes AND 1e-9 of the largest
+    magnitude in the whole run (floating-point noise on a structurally zero quantity is neither)"""
+    import numpy as np
+    rows = []
+    gmax = 0.0
     for ob in obs:
         v = ob.expr
         try:
             mag = abs(complex(v))
         except TypeError:
-            import numpy as np
             mag = float(np.max(np.abs(np.asarray(v, dtype=complex)))) if np.size(v) else 0.0
         sc = 0.0
         for t in ob.scale:
             try: sc += abs(complex(t))
             except Exception: pass
-        if not (mag <= tol * max(sc, 1e-9) or mag <= 1e-12) or mag != mag:
-            bad.append((ob.name, mag, sc))
+        rows.append((ob.name, mag, sc))
+        if sc == sc and sc != float('inf'): gmax = max(gmax, sc)
+    bad = []
+    for name, mag, sc in rows:
+        if mag != mag or not (mag <= tol * sc or mag <= 1e-9 * gmax or mag <= 1e-12):
+            bad.append((name, mag, sc))
     return bad
 
 
